@@ -43,6 +43,7 @@ type Config struct {
 	SimOS     []string            `json:"simos_packages,omitempty"`
 	StmtYield []string            `json:"stmt_yield_files,omitempty"`     // repo-relative files that get statement-level yields in goroutine bodies
 	StmtAll   []string            `json:"stmt_yield_all_files,omitempty"` // repo-relative files that get statement-level yields in every function
+	MapGuard  []string            `json:"map_guard_files,omitempty"`      // repo-relative files whose map reads, writes and ranges announce themselves (dsim/mapguard.go)
 	Knobs     []KnobSpec          `json:"knobs,omitempty"`
 	Overrides map[string]string   `json:"overrides,omitempty"`
 	Extra     map[string]string   `json:"extra_files,omitempty"` // overlay additions: repo-relative target -> source path
@@ -121,6 +122,10 @@ func main() {
 	for _, f := range cfg.StmtYield {
 		stmtYield[filepath.Join(*repo, f)] = true
 	}
+	mapGuard := map[string]bool{}
+	for _, f := range cfg.MapGuard {
+		mapGuard[filepath.Join(*repo, f)] = true
+	}
 	stmtAll := map[string]bool{}
 	for _, f := range cfg.StmtAll {
 		stmtAll[filepath.Join(*repo, f)] = true
@@ -148,7 +153,7 @@ func main() {
 			}
 			relDir := strings.TrimPrefix(strings.TrimPrefix(filepath.Dir(path), filepath.Clean(*repo)), "/")
 			rw := &rewriter{pkg: p, file: f, fset: p.Fset, rep: rep, path: path, rel: strings.TrimPrefix(path, *repo+"/"), simos: simos[relDir] || simos["*"],
-				stmtYield: stmtYield[path], stmtAll: stmtAll[path], knobs: append(append([]KnobSpec(nil), knobsByFile[path]...), knobsByDir[filepath.Dir(path)]...), overrides: cfg.Overrides}
+				stmtYield: stmtYield[path], stmtAll: stmtAll[path], mapGuard: mapGuard[path], knobs: append(append([]KnobSpec(nil), knobsByFile[path]...), knobsByDir[filepath.Dir(path)]...), overrides: cfg.Overrides}
 			changed := rw.run()
 			if !changed {
 				continue
@@ -222,6 +227,8 @@ type rewriter struct {
 	path, rel string
 	stmtYield bool
 	stmtAll   bool
+	mapGuard  bool
+	mapLHS    map[ast.Node]bool // index expressions that are written (assignment targets, ++/--)
 	knobs     []KnobSpec
 	overrides map[string]string
 	simos     bool
@@ -290,6 +297,7 @@ func (r *rewriter) site(n ast.Node) ast.Expr {
 func (r *rewriter) run() bool {
 	r.need = map[string]bool{}
 	r.skip = map[ast.Node]bool{}
+	r.mapLHS = map[ast.Node]bool{}
 	info := r.pkg.TypesInfo
 
 	r.applyKnobs()
@@ -413,7 +421,16 @@ func (r *rewriter) pre(c *astutil.Cursor) bool {
 				r.skip[s] = true
 			}
 		}
+	case *ast.IncDecStmt:
+		if ix, ok := ast.Unparen(n.X).(*ast.IndexExpr); ok {
+			r.mapLHS[ix] = true
+		}
 	case *ast.AssignStmt:
+		for _, l := range n.Lhs {
+			if ix, ok := ast.Unparen(l).(*ast.IndexExpr); ok {
+				r.mapLHS[ix] = true
+			}
+		}
 		// v, ok := <-c  /  v, ok = <-c
 		if len(n.Lhs) == 2 && len(n.Rhs) == 1 && !r.skip[n] {
 			if u, ok := ast.Unparen(n.Rhs[0]).(*ast.UnaryExpr); ok && u.Op == token.ARROW {
@@ -446,7 +463,21 @@ func (r *rewriter) post(c *astutil.Cursor) bool {
 			c.Replace(&ast.ExprStmt{X: &ast.CallExpr{Fun: r.call("SendTo", n.Chan), Args: []ast.Expr{n.Value}}})
 			r.count("send")
 		}
+	case *ast.IndexExpr:
+		if r.mapGuard && r.isMap(n.X) {
+			if r.mapLHS[n] {
+				n.X = r.call("MapW", n.X, r.site(n))
+				r.count("map-write")
+			} else {
+				n.X = r.call("MapR", n.X, r.site(n))
+				r.count("map-read")
+			}
+		}
 	case *ast.CallExpr:
+		if r.mapGuard && len(n.Args) == 2 && r.isBuiltin(n.Fun, "delete") && r.isMap(n.Args[0]) {
+			n.Args[0] = r.call("MapW", n.Args[0], r.site(n))
+			r.count("map-write")
+		}
 		if len(n.Args) == 1 && r.isBuiltin(n.Fun, "close") {
 			n.Fun = r.dsim("Close")
 			r.count("close")
@@ -588,10 +619,17 @@ func (r *rewriter) rewriteMapRange(n *ast.RangeStmt) ast.Stmt {
 		// would not compile either, so nothing to do.
 	}
 	return &ast.ForStmt{
-		Init: &ast.AssignStmt{Lhs: []ast.Expr{it}, Tok: token.DEFINE, Rhs: []ast.Expr{r.call("MapIter", n.X)}},
+		Init: &ast.AssignStmt{Lhs: []ast.Expr{it}, Tok: token.DEFINE, Rhs: []ast.Expr{r.mapIterCall(n)}},
 		Cond: &ast.CallExpr{Fun: &ast.SelectorExpr{X: it, Sel: ast.NewIdent("Next")}},
 		Body: &ast.BlockStmt{List: append(pre, n.Body.List...)},
 	}
+}
+
+func (r *rewriter) mapIterCall(n *ast.RangeStmt) ast.Expr {
+	if r.mapGuard {
+		return r.call("MapIterG", n.X, r.site(n))
+	}
+	return r.call("MapIter", n.X)
 }
 
 func (r *rewriter) rewriteSelect(n *ast.SelectStmt) ast.Stmt {
